@@ -319,14 +319,15 @@ func C06(c *mon.Ctx) {
 		}
 		limit := 64
 		ignNames := sortedKeys(t.Ignored)
-		anySat := false
-		var satAsg string
 		type pending struct {
 			env  *model.Env
 			desc string
 		}
-		var kept []pending
 		for k := 0; k < total && k < limit; k++ {
+			// per completion of the unknowns: the ignored parts range over their own values
+			anySat := false
+			var satAsg string
+			var kept []pending
 			asg := map[string]model.Val{}
 			code := k
 			if total > limit && k > 0 {
@@ -415,14 +416,14 @@ func C06(c *mon.Ctx) {
 					kept = append(kept, pending{&env2, desc})
 				}
 			}
-		}
-		if keep && len(ignNames) > 0 && mp.Permit && anySat {
-			for _, pd := range kept {
-				or, dr := outcomeDirect(residual, bridge.ToEvalEnv(pd.env, ents))
-				if !isSat(or) {
-					w.Violation("ignore narrows a permit", fmt.Sprintf("permit `%s` is satisfied for {%s} but its residual (ignored %v) is %s (%s) for {%s}", render.CanonPolicy(mp), satAsg, ignNames, or, dr, pd.desc),
-						map[string]any{"policy": wit["policy"], "partial_env": wit["partial_env"], "residual": string((*cedarASTPolicy)(residual).MarshalCedar()), "satisfying": satAsg, "failing": pd.desc})
-					return
+			if keep && len(ignNames) > 0 && mp.Permit && anySat {
+				for _, pd := range kept {
+					or, dr := outcomeDirect(residual, bridge.ToEvalEnv(pd.env, ents))
+					if !isSat(or) {
+						w.Violation("ignore narrows a permit", fmt.Sprintf("permit `%s` is satisfied for {%s} but its residual (ignored %v) is %s (%s) for {%s}", render.CanonPolicy(mp), satAsg, ignNames, or, dr, pd.desc),
+							map[string]any{"policy": wit["policy"], "partial_env": wit["partial_env"], "residual": string((*cedarASTPolicy)(residual).MarshalCedar()), "satisfying": satAsg, "failing": pd.desc})
+						return
+					}
 				}
 			}
 		}
